@@ -44,3 +44,44 @@ def cover_inputs(tier, rng):
         B = rng.choice([12, 30, 60, 100])
         out.append({"values": [rng.randint(1, B + 5) for _ in range(n)], "B": B})
     return out
+
+
+# ------------------------------------------------------------------------------------------------ stress families (deterministic)
+def threshold_packs(tier, sizes=(7, 8)):
+    """bin-packing instances built from the values that sit ON the thresholds of pruning rules: binsize/2, /3, /4 and their neighbours,
+    7-8 items (beyond what the exhaustive part of the domain reaches): exact halves that share a bin, exact thirds, exact fills."""
+    out = []
+    for B in (10, 12):
+        pool = sorted({B // 2, B // 3, B // 4, B // 2 + 1, B // 2 - 1, B // 3 + 1, 2, 3} - {0})
+        for k in sizes:
+            combos = list(itertools.combinations_with_replacement(pool, k))
+            random.Random(B * 100 + k).shuffle(combos)
+            for m in combos[: (120 if tier == "quick" else 1200)]:
+                out.append({"values": sorted(m, reverse=True), "B": B})
+    return out
+
+
+def repeated_value_lists(tier, sizes=(7, 8)):
+    """partitioning instances with long runs of equal values (7-8 items from a pool of 4 values)"""
+    out = []
+    for pool in ((1, 2, 6), (1, 2, 5, 6), (0, 1, 3), (2, 3, 7)):
+        for k in sizes:
+            combos = list(itertools.combinations_with_replacement(pool, k))
+            random.Random(len(pool) * 10 + k).shuffle(combos)
+            out += [list(m) for m in combos[: (30 if tier == "quick" else 400)]]
+    return out
+
+
+def large_value_variants(small_lists, offsets=(10 ** 7,)):
+    """the same small instances with a large common offset on their two largest items: sums of the order of 1e7 that differ by a few units
+    (what a relative tolerance confuses)"""
+    out = []
+    for v in small_lists:
+        if len(v) < 3:
+            continue
+        for off in offsets:
+            w = sorted(v, reverse=True)
+            out.append([w[0] + off, w[1] + off] + w[2:])
+            if len(w) >= 4:
+                out.append([w[0] + off, w[1] + off, w[2] + off] + w[3:])
+    return out
